@@ -94,6 +94,7 @@ type loopInfo struct {
 	// per-execution data
 	variantHead string
 	headState   *State
+	preserved   map[string]string // heap key -> version at the loop head (loop K preserves)
 }
 
 type frame struct {
